@@ -150,3 +150,39 @@ func VerifC05_CreateFrame() {
 		vrt.Assert(after[i] == before[i], "C05.create an unsynced session on a created handle leaves the file as creation left it")
 	}
 }
+
+// VerifC05_Bulk: one bulk update of 4200 points (more than one page-buffer-sized chunk of any
+// plausible internal batching) into a 5000-point archive, then the handle is dropped without
+// Sync: nothing reaches the disk.  The times are concrete (the run is a single path); the base
+// instant and the values are symbolic.
+func VerifC05_Bulk() {
+	list, _ := ParseArchiveInfoList("1s:5000s")
+	path := vrt.NoFile("c05b.wsp")
+	c, err := Create(path, list, Sum, 0.5)
+	vrt.Assume(err == nil)
+	vrt.Assume(c.Sync() == nil)
+	_ = c.Close()
+	before := vrt.ReadFile(path)
+	w, err := Open(path)
+	vrt.Assume(err == nil)
+	now := Timestamp(1000000 + vrt.Choose("phase", 3))
+	v := Value(vrt.F64("v"))
+	const n = 4200
+	pts := make([]Point, n)
+	for i := range pts {
+		pts[i] = Point{Time: now - Timestamp(n-1-i), Value: v}
+	}
+	vrt.Reach("pre")
+	werr := w.UpdatePointsForArchive(pts, 0, now)
+	vrt.Assert(werr == nil, "C05.bulk bulk update succeeds")
+	_ = w.Close()
+	after := vrt.ReadFile(path)
+	vrt.Assert(len(after) == len(before), "C05.bulk file length unchanged")
+	same := true
+	for i := range before {
+		if after[i] != before[i] {
+			same = false
+		}
+	}
+	vrt.Assert(same, "C05.bulk unsynced bulk update stays off disk")
+}
